@@ -334,30 +334,44 @@ fn check_e2e(c: &E2e, rec: &mut Recorder) -> Result<(), String> {
             return Ok(());
         }
     }
-    let enc = ENCODINGS[c.enc];
-    // YAML 1.2 5.2: without a BOM the stream must start with an ASCII character
-    let bom = c.bom || !text.chars().next().map_or(false, |ch| ch.is_ascii() && ch != '\0');
     if text.is_empty() {
         rec.reject();
         return Ok(());
     }
-    let encoded = encode_text(&text, enc, bom);
+    check_text(&text, c.enc, c.bom, &c.mode, c.detect, rec)
+}
+
+/// One text, one encoding: every target must give the verdict and bytes of the
+/// UTF-8 run.
+pub fn check_text(text: &str, enc_idx: usize, want_bom: bool, mode: &Mode, want_detect: bool, rec: &mut Recorder) -> Result<(), String> {
+    struct C<'a> {
+        mode: &'a Mode,
+    }
+    let c = C { mode };
+    let enc = ENCODINGS[enc_idx];
+    // YAML 1.2 5.2: without a BOM the stream must start with an ASCII character
+    let bom = want_bom || !text.chars().next().map_or(false, |ch| ch.is_ascii() && ch != '\0');
+    let encoded = encode_text(text, enc, bom);
     let mut from = Some(Fmt::Yaml);
-    if c.detect {
-        if detect(text.as_bytes(), &c.mode) == Ok(Some(Fmt::Yaml)) {
+    if want_detect {
+        if detect(text.as_bytes(), c.mode) == Ok(Some(Fmt::Yaml)) {
             from = None;
             rec.class("e2e:detected");
         }
     }
     let is_ascii = text.is_ascii();
     for to in FORMATS {
-        let reference = run_mode(text.as_bytes(), &c.mode, from, to);
-        let got = run_mode(&encoded, &c.mode, from, to);
+        let reference = run_mode(text.as_bytes(), c.mode, from, to);
+        let got = run_mode(&encoded, c.mode, from, to);
         if got.verdict.is_panic() || reference.verdict.is_panic() {
             return Err(format!("panic: {} / {}", got.verdict.brief(), reference.verdict.brief()));
         }
         let same_verdict = got.verdict.is_ok() == reference.verdict.is_ok();
-        if !same_verdict || got.out != reference.out {
+        // a text both runs refuse has no translation; what was written before the
+        // refusal depends on the route (whole-text parser vs document splitter) and
+        // only has to be consistent (one a prefix of the other), as in C02
+        let same_output = if reference.verdict.is_ok() { got.out == reference.out } else { crate::util::prefix_comparable(&got.out, &reference.out) };
+        if !same_verdict || !same_output {
             return Err(format!(
                 "[{}{} {} {} -> {}] differs from the same text in UTF-8: got {} / UTF-8 {} (text {:?})",
                 enc,
@@ -397,7 +411,7 @@ impl Check for C07 {
         ]
     }
     fn units(&self, tier: Tier) -> Vec<Unit> {
-        vec![Unit::enumerate("scalars", 16), Unit::enumerate("illformed", 8), Unit::gen("e2e", 16, tier.pick(6000, 60_000))]
+        vec![Unit::enumerate("scalars", 16), Unit::enumerate("illformed", 8), Unit::gen("e2e", 16, tier.pick(6000, 60_000)), Unit::enumerate("tiny", 8), Unit::enumerate("long", 8)]
     }
     fn required_classes(&self, _tier: Tier) -> Vec<&'static str> {
         vec!["e2e:ascii_only", "e2e:non_ascii", "e2e:detected", "e2e:mode:slice", "e2e:mode:bytewise", "e2e:utf-16le", "e2e:utf-32be+bom", "e2e:ok", "scalars:pass", "illformed:utf-16", "illformed:utf-32"]
@@ -407,6 +421,80 @@ impl Check for C07 {
     }
     fn run_unit(&self, unit: &Unit, shard: u32, seed: u64, tier: Tier, rec: &mut Recorder) {
         match unit.name {
+            "tiny" => {
+                // every text of 0..=3 characters over a small alphabet: streams of one
+                // or two code units, a lone byte order mark, a lone newline
+                let alphabet = ['1', 'a', '~', '-', ' ', '\n', '[', ']', '"', '\u{e9}', '\u{20ac}', '\u{1f600}'];
+                let mut texts: Vec<String> = vec![String::new()];
+                for len in 1..=3usize {
+                    let mut idx = vec![0usize; len];
+                    loop {
+                        texts.push(idx.iter().map(|&i| alphabet[i]).collect());
+                        let mut k = 0;
+                        while k < len {
+                            idx[k] += 1;
+                            if idx[k] < alphabet.len() {
+                                break;
+                            }
+                            idx[k] = 0;
+                            k += 1;
+                        }
+                        if k == len {
+                            break;
+                        }
+                    }
+                }
+                for (i, text) in texts.iter().enumerate() {
+                    if i as u32 % unit.shards != shard {
+                        continue;
+                    }
+                    for enc in 0..4 {
+                        for bom in [false, true] {
+                            for (mi, mode) in [Mode::Slice, Mode::Reader(Sched::Fixed(1)), Mode::Reader(Sched::Full)].into_iter().enumerate() {
+                                let detect = (i + mi) % 2 == 0;
+                                rec.trace_case(|| json!({"unit": "tiny", "text": text, "enc": enc, "bom": bom, "mode": mode.to_json(), "detect": detect}));
+                                rec.class("tiny");
+                                if let Err(m) = check_text(text, enc, bom, &mode, detect, rec) {
+                                    rec.fail(m, json!({"unit": "tiny", "text": text, "enc": enc, "bom": bom, "mode": mode.to_json(), "detect": detect}));
+                                    return;
+                                }
+                            }
+                        }
+                    }
+                }
+            }
+            "long" => {
+                // texts longer than every internal buffer (8 KiB BufReader, 16 KiB
+                // libyaml input, the re-encoder's remainder) with characters of every
+                // UTF-8 length at every alignment
+                let chars = ['\u{e9}', '\u{20ac}', '\u{1f600}', 'x', '\u{30a2}'];
+                let mut n = 0u32;
+                for k in 0..6usize {
+                    let mut text = String::from("- \"");
+                    for i in 0..(17_000 + 1111 * k) {
+                        text.push(chars[(i + k + i / 7) % 5]);
+                    }
+                    text.push_str("\"\n- [1, 2]\n");
+                    for pad in 0..3usize {
+                        let text = format!("{}{}", "#".repeat(pad) + if pad > 0 { "\n" } else { "" }, text);
+                        for enc in 0..4 {
+                            n += 1;
+                            if n % unit.shards != shard {
+                                continue;
+                            }
+                            for mode in [Mode::Slice, Mode::Reader(Sched::Fixed(8192)), Mode::Reader(Sched::Sizes(vec![1, 16384, 3, 8191, 100])), Mode::Reader(Sched::Full)] {
+                                rec.class("long");
+                                let cj = json!({"unit": "long", "text": text, "enc": enc, "bom": k % 2 == 0, "mode": mode.to_json(), "detect": pad == 1});
+                                rec.trace_case(|| cj.clone());
+                                if let Err(m) = check_text(&text, enc, k % 2 == 0, &mode, pad == 1, rec) {
+                                    rec.fail(m, cj);
+                                    return;
+                                }
+                            }
+                        }
+                    }
+                }
+            }
             "scalars" => {
                 let cs = combos(tier);
                 let mut texts: [Option<String>; 2] = [None, None];
@@ -512,6 +600,14 @@ impl Check for C07 {
     fn replay(&self, case: &J) -> Result<(), String> {
         match case["unit"].as_str().unwrap_or("") {
             "e2e" => check_e2e(&e2e_from_json(case).ok_or("bad e2e case")?, &mut Recorder::default()),
+            "tiny" | "long" => check_text(
+                case["text"].as_str().ok_or("no text")?,
+                case["enc"].as_u64().ok_or("no enc")? as usize,
+                case["bom"].as_bool().ok_or("no bom")?,
+                &Mode::from_json(&case["mode"]).ok_or("bad mode")?,
+                case["detect"].as_bool().unwrap_or(false),
+                &mut Recorder::default(),
+            ),
             "illformed" => {
                 let bytes = unhex(case["bytes"].as_str().ok_or("no bytes")?).ok_or("bad hex")?;
                 let sizes: Vec<usize> = case["sizes"].as_array().ok_or("no sizes")?.iter().filter_map(|x| x.as_u64().map(|x| x as usize)).collect();
